@@ -40,3 +40,6 @@ package lib
 //@ lib func unicode.Is(rangeTab *unicode.RangeTable, r rune) (b bool)
 //@   pure
 //@   requires rangeTab != nil
+
+//@ lib func strconv.Itoa(i int) (s string)
+//@   pure
